@@ -34,6 +34,22 @@ ASSUMPTIONS = [
 ]
 
 
+VARIANTS = [
+    {"n_pool": 1}, {"likelihood_chunksize": 1},
+    {"pool": {"__pool__": 2}, "likelihood_chunksize": 7},
+    {"n_pool": 2}, {"likelihood_chunksize": 7},
+    {"pool": {"__pool__": 2}, "parallelise_prior": True},
+    {"n_pool": 3, "likelihood_chunksize": 7}, {"pool": {"__pool__": 3}},
+    {"likelihood_chunksize": 100000},
+    {"n_pool": 4}, {"n_pool": 2, "parallelise_prior": True},
+    {"pool": {"__pool__": 2}},
+    {"n_pool": 2, "likelihood_chunksize": 1},
+    {"pool": {"__pool__": 4}, "likelihood_chunksize": 100000,
+     "parallelise_prior": True},
+    {"n_pool": 1, "likelihood_chunksize": 100000},
+]
+
+
 @st.composite
 def group(draw):
     ins = draw(st.sampled_from([False, False, True]))
@@ -56,15 +72,11 @@ def group(draw):
             proposal_classes=["flowproposal"]))
         base["kwargs"]["max_iteration"] = draw(st.integers(300, 600))
     base["kills"] = []
-    variants = draw(st.lists(st.sampled_from([
-        {"n_pool": 1}, {"n_pool": 2}, {"n_pool": 3}, {"n_pool": 4},
-        {"pool": {"__pool__": 2}}, {"pool": {"__pool__": 3}},
-        {"likelihood_chunksize": 1}, {"likelihood_chunksize": 7},
-        {"likelihood_chunksize": 100000},
-        {"n_pool": 2, "parallelise_prior": True},
-        {"n_pool": 3, "likelihood_chunksize": 7},
-        {"pool": {"__pool__": 2}, "parallelise_prior": True},
-    ]), min_size=3, max_size=3, unique_by=repr))
+    # three members besides the baseline: a window of the variant table
+    # whose start is generated; run_groups() shifts the windows so that the
+    # groups of one run cover the whole table
+    start = draw(st.integers(0, len(VARIANTS) - 1))
+    variants = [VARIANTS[(start + j) % len(VARIANTS)] for j in range(3)]
     return {"base": base, "variants": [{}] + variants}
 
 
@@ -145,6 +157,12 @@ def run(ctx):
     n = 8 if ctx.quick else 60
     groups = configs.collect(group(), ctx.seed, n,
                              key=lambda g: g["base"])
+    # windows of three consecutive table entries, shifted group by group:
+    # five groups cover the table once
+    for i, g in enumerate(groups):
+        start = (3 * i + ctx.seed) % len(VARIANTS)
+        g["variants"] = [{}] + [VARIANTS[(start + j) % len(VARIANTS)]
+                                for j in range(3)]
     return run_groups(ctx, groups, "c14")
 
 
